@@ -49,4 +49,10 @@ theorem src :
     Gen.Curl.src_curl_bool2int = Expect.Curl_src_curl_bool2int :=
   ⟨rfl, rfl, rfl, rfl, rfl, rfl, rfl, rfl, rfl, rfl, rfl, rfl⟩
 
+/-- everything else the package declares (imports, constants, types, variables, build constraints and the functions not
+pinned one by one) is unchanged too: no declaration of the modelled packages can change without a tie theorem failing. -/
+theorem rest :
+    Gen.Curl.rest_curl = Expect.Curl_rest_curl :=
+  rfl
+
 end Iota.Tie.Curl
